@@ -2512,8 +2512,13 @@ hwloc___xml_v2export_distances(hwloc__xml_export_state_t parentstate, struct hwl
   }
   sprintf(tmp, "%lu", kind);
   state.new_prop(&state, "kind", tmp);
-  if (dist->name)
-    state.new_prop(&state, "name", dist->name);
+  if (dist->name) {
+    char *name = hwloc__xml_export_safestrdup(dist->name);
+    if (name) {
+      state.new_prop(&state, "name", name);
+      free(name);
+    }
+  }
 
   if (!dist->different_types) {
     state.new_prop(&state, "indexing",
